@@ -221,6 +221,9 @@ PropViolations(e, o) ==
            /\ (st[p].ms # "plain" \/ st[p].pol.req)
            /\ ~(e.m.t = "D" /\ e.m.mac[1] > 0 /\ <<e.m.mac[1], e.m.mac[2]>> = <<TheirKey(st[p], e.m.skid), OurKey(st[p], e.m.rkid)>>)
         THEN {<<"C02", "a tampered or forged message yielded plaintext">>} ELSE {})
+  \* made from what travels on the wire alone: the MAC key had been published there
+  \cup (IF e.ev = "Recv" /\ e.atk = "forged-with-disclosed-key" /\ e.plain # 0 /\ ~HasEv(e, "msg:ReceivedMessageUnencrypted")
+        THEN {<<"C02", "a message forged with a MAC key that had been published on the wire was accepted">>} ELSE {})
   \cup (IF e.ev # "Done" /\ o.fam # "relay" /\ e.st.ms = "enc" /\ HasEv(e, "sec:GoneSecure") /\
              ~(/\ e.st.peer \in {"A", "B", "E", "X"}
                /\ e.st.sess[1] > 0 /\ e.st.sess[2] > 0
